@@ -675,7 +675,8 @@ def memo_1(ctx, rep):
         f = ctx.prog.funcs.get(key)
         if f is None:
             raise AnalysisError('anchor vanished: memo function %s:%s' % key)
-        f = ctx.view(f)             # the store may have been moved into a private helper
+        if not any(why.startswith('module global') for _, why in eff.shared_writes(f)):
+            f = ctx.view(f)         # the store was moved into a private helper: read it in place
         stores = []
         for n, why in eff.shared_writes(f):
             if not why.startswith('module global'):
